@@ -32,6 +32,7 @@ RULE = ('every op of the catalogue (tensor and nn ops) inside a fan-out graph: i
 EXHAUSTIVE = {'quick': False, 'thorough': False}
 ASSUMPTIONS = ['float64 programs; summation order of NumPy reductions differs from the model by rounding only (rel 1e-9)']
 TRUSTED_BASE = ['harness/tprog.py, harness/gen_dag.py (generator, executor, canonicalisation)', 'harness/extract.py (op table extractor)']
+TRUSTED_BASE = TRUSTED_BASE + ['harness/engine_logic.py (reading of the conditions, context transitions, loop skeletons and class method surfaces of tensor.py / nn/modules.py, Generated/EngineLogic.lean; the Boolean translation is validated on every run by the `logic` family of C07)']
 
 
 def extract():
